@@ -299,7 +299,7 @@ def run(repo: Repo, rep: Report, tier: str) -> None:
                 rep.check(not bad, "C19-R4", f"{m.short}: `{norm(n.targets[0])[:60]}` does not depend on positions", f"derives from {sorted(str(l) for l in leaves if l.kind != 'const')[:6]}", m.loc(n))
     rep.floor("C19-R4", "wire-selection stores", n_cfg, 4)
     from .shared import mst_colour_keys
-    mst_colour_keys(repo, rep, "C19-R4")
+    mst_colour_keys(repo, rep, "C19-R4", include_reversed=False)
     wr = repo.module("layout.wire_router")
     pos_reads = [n for f in wr.funcs.values() for n in walk_local(f.node) if isinstance(n, ast.Attribute) and n.attr == "position"]
     rep.check(not pos_reads, "C19-R4", "wire colouring (wire_router) never reads a position", f"{len(pos_reads)} reads of .position", wr.rel + ":1")
